@@ -4,7 +4,7 @@ import TakVerif.Proofs.C06Update
 namespace C06
 open Tak Tak.PN Spec.Game
 
-variable {S M : Type} (G : Game S M) (att : Color)
+variable {S M : Type} (G : Game S M) (att : Color) (root : S)
 
 theorem descend_same (st st' : St S M) (l : List (Node M)) (c : Node M) (r : List (Node M))
     (h : descend G st l c r = some st') : SameRest st st' := by
@@ -112,9 +112,9 @@ theorem expandLoop_anomaly (cur : S) : ∀ (ms : List M) (st st' : St S M),
 
 /-- the end of `pn2`: the second-level root gets its value and its children are cut back to leaves -/
 theorem pn2_finish_ok (st : St S M) (v : Eval)
-    (hz : ZipOK G att st)
+    (hz : ZipOK G att root st)
     (hv : v = st.focus.value ∨ (v = .proven ∧ st.focus.proof = 0) ∨ (v = .disproven ∧ st.focus.disproof = 0)) :
-    ZipOK G att { st with focus := { st.focus with value := v, children := st.focus.children.map collapse } } := by
+    ZipOK G att root { st with focus := { st.focus with value := v, children := st.focus.children.map collapse } } := by
   obtain ⟨s, hs, hst, ht, hc⟩ := hz
   rw [TreeOK_iff] at ht
   obtain ⟨hnum, hkids, hcov, hnil⟩ := ht
@@ -168,24 +168,24 @@ theorem pn2_finish_ok (st : St S M) (v : Eval)
     · intro hx
       simp only at hx ⊢
       rw [hnil hx]; rfl
-  · exact CrumbsOK.replace G att hc rfl rfl (fun h1 h2 => ⟨h1, h2⟩)
+  · exact CrumbsOK.replace G att root hc rfl rfl (fun h1 h2 => ⟨h1, h2⟩)
 
 /-- what the three mutually recursive functions guarantee -/
 def OpOK (st st' : St S M) : Prop :=
-  (st'.anomaly = false → st.anomaly = false) ∧ (ZipOK G att st → st'.anomaly = false → ZipOK G att st')
+  (st'.anomaly = false → st.anomaly = false) ∧ (ZipOK G att root st → st'.anomaly = false → ZipOK G att root st')
 
-theorem OpOK.trans {a b c : St S M} (h1 : OpOK G att a b) (h2 : OpOK G att b c) : OpOK G att a c :=
+theorem OpOK.trans {a b c : St S M} (h1 : OpOK G att root a b) (h2 : OpOK G att root b c) : OpOK G att root a c :=
   ⟨fun h => h1.1 (h2.1 h), fun hz h => h2.2 (h1.2 hz (h2.1 h)) h⟩
 
-theorem OpOK.of_same {a b : St S M} (hs : SameRest a b) (hz : ZipOK G att a → ZipOK G att b) : OpOK G att a b :=
+theorem OpOK.of_same {a b : St S M} (hs : SameRest a b) (hz : ZipOK G att root a → ZipOK G att root b) : OpOK G att root a b :=
   ⟨fun h => by rw [← hs.2.2.2]; exact h, fun z _ => hz z⟩
 
 theorem search_all (halt : Alternating G) (hatt : att = .white ∨ att = .black) (hsb : SmallBranching G) :
     ∀ fuel : Nat,
       (∀ (base : Nat) (mn : UInt64) (st st' : St S M), search G att base mn fuel st = .ok st' →
-        OpOK G att st st' ∧ (ZipOK G att st → st'.anomaly = false → st'.up.length = base)) ∧
-      (∀ (st st' : St S M), expand G att fuel st = .ok st' → st.focus.expanded = false → OpOK G att st st') ∧
-      (∀ (st st' : St S M), pn2 G att fuel st = .ok st' → OpOK G att st st') := by
+        OpOK G att root st st' ∧ (ZipOK G att root st → st'.anomaly = false → st'.up.length = base)) ∧
+      (∀ (st st' : St S M), expand G att fuel st = .ok st' → st.focus.expanded = false → OpOK G att root st st') ∧
+      (∀ (st st' : St S M), pn2 G att fuel st = .ok st' → OpOK G att root st st') := by
   intro fuel
   induction fuel with
   | zero =>
@@ -196,7 +196,7 @@ theorem search_all (halt : Alternating G) (hatt : att = .white ∨ att = .black)
   | succ fuel ih =>
     obtain ⟨ihS, ihE, ihP⟩ := ih
     -- pn2 first (it uses `search` at the smaller fuel), then expand, then search
-    have hP : ∀ (st st' : St S M), pn2 G att (fuel+1) st = .ok st' → OpOK G att st st' := by
+    have hP : ∀ (st st' : St S M), pn2 G att (fuel+1) st = .ok st' → OpOK G att root st st' := by
       intro st st' h
       simp only [pn2] at h
       split at h
@@ -208,8 +208,8 @@ theorem search_all (halt : Alternating G) (hatt : att = .white ∨ att = .black)
         constructor
         · intro han; exact hm han
         · intro hz han
-          have hz2 : ZipOK G att st2 := hzz ((ZipOK_congr G att rfl rfl rfl rfl).mp hz) han
-          have := pn2_finish_ok G att st2
+          have hz2 : ZipOK G att root st2 := hzz ((ZipOK_congr G att root rfl rfl rfl rfl).mp hz) han
+          have := pn2_finish_ok G att root st2
             (if st2.focus.proof == 0 then .proven else if st2.focus.disproof == 0 then .disproven else st2.focus.value)
             hz2 (by
               by_cases h1 : st2.focus.proof = 0
@@ -217,7 +217,7 @@ theorem search_all (halt : Alternating G) (hatt : att = .white ∨ att = .black)
               · by_cases h2 : st2.focus.disproof = 0
                 · right; right; simp [h1, h2]
                 · left; simp [h1, h2])
-          refine (ZipOK_congr G att ?_ ?_ ?_ ?_).mp this
+          refine (ZipOK_congr G att root ?_ ?_ ?_ ?_).mp this
           · simp only
             by_cases h1 : st2.focus.proof = 0
             · simp [h1]
@@ -228,7 +228,7 @@ theorem search_all (halt : Alternating G) (hatt : att = .white ∨ att = .black)
           · rfl
           · rfl
     have hE : ∀ (st st' : St S M), expand G att (fuel+1) st = .ok st' → st.focus.expanded = false →
-        OpOK G att st st' := by
+        OpOK G att root st st' := by
       intro st st' h hunexp
       simp only [expand] at h
       split at h
@@ -243,7 +243,7 @@ theorem search_all (halt : Alternating G) (hatt : att = .white ∨ att = .black)
             simp only [Bool.or_eq_false_iff] at this
             exact this.1.1
           · intro hz han
-            exact this.2 ((ZipOK_congr G att rfl rfl rfl rfl).mp hz) han
+            exact this.2 ((ZipOK_congr G att root rfl rfl rfl rfl).mp hz) han
         · split at h
           · exact absurd h (by simp)
           · rename_i st1 hl
@@ -261,10 +261,10 @@ theorem search_all (halt : Alternating G) (hatt : att = .white ∨ att = .black)
               simp only at han
               rw [han1] at han
               simp only [Bool.or_eq_false_iff, beq_eq_false_iff_ne] at han
-              have hz' : ZipOK G att { st with anomaly := st.anomaly || st.focus.phi == 0 || st.focus.delta == 0 } :=
-                (ZipOK_congr G att rfl rfl rfl rfl).mp hz
-              have := expand_normal_ok G att halt hatt hsb _ st1 cur rest hz' hst hunexp han.1.2 han.2 hl
-              exact (ZipOK_congr G att rfl rfl rfl rfl).mp (this _ st1.anomaly)
+              have hz' : ZipOK G att root { st with anomaly := st.anomaly || st.focus.phi == 0 || st.focus.delta == 0 } :=
+                (ZipOK_congr G att root rfl rfl rfl rfl).mp hz
+              have := expand_normal_ok G att root halt hatt hsb _ st1 cur rest hz' hst hunexp han.1.2 han.2 hl
+              exact (ZipOK_congr G att root rfl rfl rfl rfl).mp (this _ st1.anomaly)
     refine ⟨?_, hE, hP⟩
     intro base mn st st' h
     simp only [search] at h
@@ -273,18 +273,18 @@ theorem search_all (halt : Alternating G) (hatt : att = .white ∨ att = .black)
       · exact absurd h (by simp)
       · rename_i st1 hsel
         have hs1 := select_same G _ st st1 hsel
-        have o1 : OpOK G att st st1 :=
-          OpOK.of_same G att hs1 (fun z => (select_ok G att _ st st1 z hsel).1)
+        have o1 : OpOK G att root st st1 :=
+          OpOK.of_same G att root hs1 (fun z => (select_ok G att root _ st st1 z hsel).1)
         split at h
         · split at h
           · exact absurd h (by simp)
           · rename_i st2 hasc
             injection h with h; subst h
             have hs2 := ascendTo_same base _ st1 _ hasc
-            have o2 : OpOK G att st1 _ := OpOK.of_same G att hs2 (fun z => (ascendTo_ok G att base _ st1 _ z hasc).1)
-            refine ⟨o1.trans G att o2, ?_⟩
+            have o2 : OpOK G att root st1 _ := OpOK.of_same G att root hs2 (fun z => (ascendTo_ok G att root base _ st1 _ z hasc).1)
+            refine ⟨o1.trans G att root o2, ?_⟩
             intro hz han
-            exact (ascendTo_ok G att base _ st1 _ (o1.2 hz (o2.1 han)) hasc).2.1
+            exact (ascendTo_ok G att root base _ st1 _ (o1.2 hz (o2.1 han)) hasc).2.1
         · split at h
           · exact absurd h (by simp)
           · rename_i st2 hexp
@@ -292,23 +292,23 @@ theorem search_all (halt : Alternating G) (hatt : att = .white ∨ att = .black)
             · exact absurd h (by simp)
             · rename_i st3 hupd
               obtain ⟨o4, hlen⟩ := ihS base mn st3 st' h
-              have o3 : OpOK G att st2 st3 :=
+              have o3 : OpOK G att root st2 st3 :=
                 ⟨updateAncestors_mono G base _ st2 st3 hupd,
-                 fun z han => updateAncestors_ok G att hsb base _ st2 st3 z hupd han⟩
+                 fun z han => updateAncestors_ok G att root hsb base _ st2 st3 z hupd han⟩
               -- the node handed to `expand` is not expanded
-              have o2 : OpOK G att st1 st2 := ihE st1 st2 hexp (select_unexpanded G _ st st1 hsel)
-              have o := (o1.trans G att o2).trans G att (o3.trans G att o4)
+              have o2 : OpOK G att root st1 st2 := ihE st1 st2 hexp (select_unexpanded G _ st st1 hsel)
+              have o := (o1.trans G att root o2).trans G att root (o3.trans G att root o4)
               refine ⟨o, ?_⟩
               intro hz han
-              have z3 := ((o1.trans G att o2).trans G att o3).2 hz (o4.1 han)
+              have z3 := ((o1.trans G att root o2).trans G att root o3).2 hz (o4.1 han)
               exact hlen z3 han
     · split at h
       · exact absurd h (by simp)
       · rename_i st2 hasc
         injection h with h; subst h
         have hs2 := ascendTo_same base _ st _ hasc
-        refine ⟨OpOK.of_same G att hs2 (fun z => (ascendTo_ok G att base _ st _ z hasc).1), ?_⟩
+        refine ⟨OpOK.of_same G att root hs2 (fun z => (ascendTo_ok G att root base _ st _ z hasc).1), ?_⟩
         intro hz _
-        exact (ascendTo_ok G att base _ st _ hz hasc).2.1
+        exact (ascendTo_ok G att root base _ st _ hz hasc).2.1
 
 end C06
